@@ -82,15 +82,15 @@ Qed.
 Print Assumptions C13_payload.
 
 (* The responder sees each inbound substream once: a stimulus that yields a RequestReceived is an
-   inbound request frame (len, tag) arriving on a carrier, it yields exactly that one event with
-   exactly those bytes, and no two such stimuli of a run are on the same carrier. *)
+   inbound request frame (len, tag) arriving on a carrier, it yields exactly that one RequestReceived (possibly followed by the
+   note which fallback name was negotiated) with exactly those bytes, and no two such stimuli of a run are on the same carrier. *)
 Theorem C13_responder_once :
   forall (cf : cfg) (evs : list ev),
     let steps := run_steps cf (init_pst, init_env) evs in
     NoDup (req_chans steps) /\
     forall e o tg irid p len tag,
       In (e, o, tg) steps -> In (OReq irid p len tag) o ->
-      exists k c, e = EInReq k len tag /\ tg = Some c /\ o = [OReq irid p len tag].
+      exists k c rest, e = EInReq k len tag /\ tg = Some c /\ o = OReq irid p len tag :: rest /\ has_req rest = false.
 Proof. exact responder_once. Qed.
 Print Assumptions C13_responder_once.
 
@@ -110,22 +110,23 @@ Print Assumptions C13_unrepaired_refuted.
    both requests, both get their own response — supplied in the opposite order, each on its own
    carrier — and the run ends quiescent. *)
 Definition demo : list ev :=
-  [ESend 0 true 3 10; ESend 0 true 2 20; EEstablished 0 false 0; EOpened 0 1; EOpened 0 1;
-   ERespond 1 3 9; ERespond 0 2 7; EInOpen 0 1; EInReq 2 4 5].
+  [ESend 0 true 3 10 None; ESend 0 true 2 20 (Some (1, 5, 50)); EEstablished 0 false 0; EOpened 0 1 0; EOpened 0 1 1;
+   ERespond 1 3 9; ERespond 0 2 7; EInOpen 0 1 2; EInReq 2 4 5].
 Example demo_two_responses :
-  let res := run (mkCfg None 4 16 5000) (init_pst, init_env) demo in
-  filter (fun x => match x with OResp _ _ _ | OBind _ _ | OReq _ _ _ _ => true | _ => false end) (snd res)
-    = [OBind 0 0; OBind 1 1; OResp 1 3 9; OResp 0 2 7; OReq 2 0 4 5] /\
+  let res := run (mkCfg None 4 16 5000 false) (init_pst, init_env) demo in
+  filter (fun x => match x with OResp _ _ _ | OBind _ _ | OReq _ _ _ _ | OWire _ _ _ | OFbResp _ _ | OFbReq _ _ => true
+                                | _ => false end) (snd res)
+    = [OBind 0 0; OWire 0 3 10; OBind 1 1; OWire 1 5 50; OResp 1 3 9; OFbResp 1 1; OResp 0 2 7; OReq 2 0 4 5; OFbReq 2 2] /\
   dials (fst (fst res)) = [] /\ pouts (fst (fst res)) = [] /\ futs (fst (fst res)) = [] /\
-  req_chans (run_steps (mkCfg None 4 16 5000) (init_pst, init_env) demo) = [2].
+  req_chans (run_steps (mkCfg None 4 16 5000 false) (init_pst, init_env) demo) = [2].
 Proof. vm_compute. repeat split. Qed.
 
 (* Non-vacuity of the mixed case at connection establishment: three requests wait for the dial,
    the connection's command channel takes two substream-open commands, the third attempt fails at
    once; then the connection closes. Every request gets its single failure. *)
 Example demo_partial_open :
-  let res := run (mkCfg None 4 16 5000) (init_pst, init_env)
-                 [ESend 0 true 1 1; ESend 0 true 1 2; ESend 0 true 1 3; EEstablished 0 false 2; EClosed 0] in
+  let res := run (mkCfg None 4 16 5000 false) (init_pst, init_env)
+                 [ESend 0 true 1 1 None; ESend 0 true 1 2 None; ESend 0 true 1 3 None; EEstablished 0 false 2; EClosed 0] in
   filter (fun x => match x with OFail _ _ => true | _ => false end) (snd res)
     = [OFail 2 E_SUBSTREAM; OFail 0 E_CONN_CLOSED; OFail 1 E_CONN_CLOSED] /\
   quiescent (fst (fst res)).
